@@ -405,13 +405,23 @@ func cmdCheck(args []string) int {
 	// bounded stand-ins
 	var boundedReports []map[string]interface{}
 	violations := 0
-	var vioLines, boundedVio []string
+	var vioLines, boundedVio, boundedKnown []string
 	for _, bs := range ps.Bounded {
 		rep, ok := runBounded(id, bs, *tier, outDir)
 		boundedReports = append(boundedReports, rep)
 		if !ok {
-			violations++
-			boundedVio = append(boundedVio, fmt.Sprintf("VIOLATION property=%s replay=%s", id, rep["replay"]))
+			known := false
+			for _, f := range findings {
+				if f.Kind == "finding" && f.Property == id && f.Group == "bounded:"+bs.Name {
+					boundedKnown = append(boundedKnown, fmt.Sprintf("KNOWN-FINDING: property=%s %s (bounded:%s)", id, f.Text, bs.Name))
+					rep["known_finding"] = true
+					known = true
+				}
+			}
+			if !known {
+				violations++
+				boundedVio = append(boundedVio, fmt.Sprintf("VIOLATION property=%s replay=%s", id, rep["replay"]))
+			}
 		}
 	}
 
@@ -578,7 +588,7 @@ func cmdCheck(args []string) int {
 		"generated_discharged":     countUnsat(perObl),
 		"extra_groups_discharged_not_claimed": extraDis,
 		"undecided_groups":         undecided,
-		"known_findings_reported":  knownLines,
+		"known_findings_reported":  append(append([]string{}, knownLines...), boundedKnown...),
 		"per_obligation":           perObl,
 		"solver_ms_total":          solverMs,
 		"backends":                 backends,
@@ -587,6 +597,26 @@ func cmdCheck(args []string) int {
 		"not_decided":              ps.Undecided,
 		"samples":                  samples,
 		"stale":                    stale,
+	}
+	// thorough tier: the must-fail / must-pass corpus of this property runs against the machinery itself
+	selftestBad := 0
+	if *tier == "thorough" && *overlayFile == "" {
+		rc := selftest([]string{id})
+		var lines []string
+		for _, l := range selftestLines {
+			if i := strings.Index(l, "\n"); i >= 0 {
+				l = l[:i]
+			}
+			lines = append(lines, l)
+		}
+		sort.Strings(lines)
+		ev.Coverage["selftest"] = map[string]interface{}{
+			"what":  "every stored property-breaking change of this property (seeded by sub-agents, canaries of repaired defects, hand-written mutants) must produce a VIOLATION; every stored behaviour-preserving edit must pass",
+			"cases": len(lines), "wrong": rc != 0, "results": lines,
+		}
+		if rc != 0 {
+			selftestBad = 1
+		}
 	}
 	ev.Assumptions = append([]string{}, ps.Assumptions...)
 	for k := range trusted {
@@ -599,7 +629,7 @@ func cmdCheck(args []string) int {
 		os.WriteFile(filepath.Join(verifDir, "evidence", id+".json"), data, 0o644)
 	}
 
-	for _, l := range knownLines {
+	for _, l := range append(knownLines, boundedKnown...) {
 		fmt.Println(l)
 	}
 	for _, l := range append(vioLines, boundedVio...) {
@@ -614,6 +644,9 @@ func cmdCheck(args []string) int {
 	}
 	if violations > 0 {
 		return 1
+	}
+	if selftestBad > 0 {
+		return internalErr("selftest corpus of %s: a stored property-breaking change was not reported, or a harmless edit was", id)
 	}
 	if len(coverFail) > 0 {
 		// nothing failed, yet some path's assumptions are contradictory: the harness is broken, not the code
